@@ -95,7 +95,7 @@ for i in ("C01","C02","C06","C07"):
     C[i]["level_claimed"]["text"] += " Generated histories are also replayed call by call on the library built WITHOUT the verif feature (real dashmap and crossbeam queue): every call must return and every match / update result and the aggregates after every call must equal what the instrumented build gave."
     C[i]["technique"] += " + differential replay instrumented build vs unhooked build"
 C["C03"]["engine"] += " + P unhooked-build replay"
-C["C03"]["level_claimed"]["text"] += " A real-thread stress on the library built WITHOUT the verif feature (8 threads x 400 add / match / cancel / snapshot operations per round) checks that all threads finish, aggregates equal the listing sums, every unit added is executed, handed back or resting, and a draining match empties the level."
+C["C03"]["level_claimed"]["text"] += " A real-thread stress on the library built WITHOUT the verif feature (8 threads x 400 operations per round; even rounds add / match / cancel / snapshot with unit accounting, odd rounds the full mix incl. amendments, moves and renderings) checks that all threads finish, aggregates equal the listing sums, every unit added is executed, handed back or resting (even rounds), and a draining match empties the level."
 C["C03"]["technique"] += " + real-thread stress on the unhooked build"
 C["C06"]["level_note"] += " On the unhooked build 'did not return' is a wall-clock observation (120 s, confirmed in a fresh process with 300 s; one slow attempt is reported as inconclusive, exit 2)."
 C["C19"]["level_claimed"]["text"] += " The known finding KF-C19-1 is delimited exactly by tracking the queue's ticket FIFO; re-pushing the very allocation that remove(id) handed back is a generated operation."
